@@ -390,28 +390,192 @@ Proof.
 Qed.
 
 (* ------------------------------------------------------------------ *)
-(* 4. the main invariant: all interleavings, all crash points          *)
+(* 4. hostnames table and the span-hosts list (all interleavings,      *)
+(*    all crash points)                                                *)
 (* ------------------------------------------------------------------ *)
+Lemma infos_new_rows al : infos (map new_row al) = al.
+Proof. induction al as [|x al IH]; cbn; [reflexivity | now f_equal]. Qed.
+
+Lemma infos_add_many l t : infos (add_many l t) = infos t ++ added l t.
+Proof.
+  destruct (add_many_added l t) as [E _]. rewrite E at 1. unfold infos at 1. rewrite map_app.
+  fold (infos t). fold (infos (map new_row (added l t))). now rewrite infos_new_rows.
+Qed.
+
+Lemma urls_add_many l t : urls (add_many l t) = urls t ++ map ri_url (added l t).
+Proof. now rewrite !urls_infos, infos_add_many, map_app. Qed.
+
+Lemma added_incl l t i : In i (added l t) -> In i l.
+Proof. destruct (add_many_added l t) as [_ H]. apply H. Qed.
+
+Lemma added_cover l t i : In i l -> In (ri_url i) (urls t) \/ exists i', In i' (added l t) /\ ri_url i' = ri_url i.
+Proof.
+  intros Hi. pose proof (add_many_covers l t i Hi) as C. rewrite urls_add_many in C.
+  apply in_app_or in C. destruct C as [C|C]; [now left | right].
+  apply in_map_iff in C. destruct C as [i' [E Hi']]. eauto.
+Qed.
+
 Section Inv.
   Variable site : url -> page.
-  Variable in_scope : bool -> url -> rinfo -> N -> bool.
+  Variable host : url -> N.
+  Variable in_scope : list N -> bool -> url -> rinfo -> N -> bool.
   Variable maxredir : nat.
   Variable starts : list url.
   Variable conc : nat.
 
-  Notation plan := (plan site in_scope maxredir).
-  Notation kids := (kids site in_scope maxredir).
-  Notation fire := (fire site in_scope maxredir starts conc).
-  Notation step := (step site in_scope maxredir starts conc).
-  Notation reach := (reach site in_scope maxredir starts conc).
+  (* the span-hosts list a fresh crawl of [starts] works with *)
+  Definition sp0 : list N := map host starts.
+
+  Notation fire := (fire site host in_scope maxredir starts conc).
+  Notation step := (step site host in_scope maxredir starts conc).
+  Notation reach := (reach site host in_scope maxredir starts conc).
+
+  Lemma In_hosts_after l t hs h :
+    In h (hosts_after host l t hs) <-> In h hs \/ exists i, In i (added l t) /\ ri_level i = 0 /\ host (ri_url i) = h.
+  Proof.
+    unfold hosts_after. rewrite fold_add_host_In. split; (intros [H|H]; [now left | right]).
+    - apply in_map_iff in H. destruct H as [i [E Hi]]. apply filter_In in Hi. destruct Hi as [Hi L].
+      apply N.eqb_eq in L. eauto.
+    - destruct H as [i [Hi [L E]]]. apply in_map_iff. exists i. split; [assumption|]. apply filter_In.
+      split; [assumption | now apply N.eqb_eq].
+  Qed.
+
+  Record InvH (s : state) : Prop := {
+    ih_hosts : forall h, In h (st_hosts s) <->
+                 exists i, In i (infos (st_tbl s)) /\ ri_level i = 0 /\ host (ri_url i) = h;
+    ih_lvl0 : forall i, In i (infos (st_tbl s)) -> ri_level i = 0 -> i = start_info (ri_url i) /\ In (ri_url i) starts;
+    ih_starts0 : (st_tbl s = [] /\ st_hosts s = []) \/ (forall u, In u starts -> In (start_info u) (infos (st_tbl s)));
+    ih_running : st_mode s = Running ->
+                 (forall u, In u starts -> In (start_info u) (infos (st_tbl s))) /\ (forall h, In h (st_span s) <-> In h sp0);
+    ih_items : forall it, In it (st_items s) -> forall l, In (AAddMany l) (it_todo it) -> forall i, In i l -> ri_level i <> 0
+  }.
+
+  Lemma InvH_init : InvH init.
+  Proof.
+    constructor; cbn; try (intros; contradiction); try discriminate; auto.
+    intros h. split; [intros [] | intros [i [[] _]]].
+  Qed.
+
+  (* an add_many of rows of level > 0 changes neither the hostnames nor the level-0 rows *)
+  Lemma hosts_after_kids l t hs : (forall i, In i l -> ri_level i <> 0) -> forall h, In h (hosts_after host l t hs) <-> In h hs.
+  Proof.
+    intros L h. rewrite In_hosts_after. split; [|now left]. intros [H|[i [Hi [L0 _]]]]; [assumption|].
+    exfalso. apply (L i); [now apply (added_incl l t) | assumption].
+  Qed.
+
+  Lemma InvH_step s s' : InvH s -> step s s' -> InvH s'.
+  Proof.
+    intros I [l H]. destruct l; cbn [Engine.fire] in H.
+    - (* checkout *)
+      destruct (st_mode s) eqn:M; try discriminate.
+      destruct (pick (st_tbl s)) as [r|] eqn:P; [|discriminate]. inversion H; subst s'; clear H.
+      destruct I as [Ih Il Is Ir Ii]. constructor; cbn; rewrite ?infos_upd by auto with eng; auto.
+      + right. apply (proj1 (Ir M)).
+      + intros it Hi. apply in_app_or in Hi. destruct Hi as [Hi|[<-|[]]]; [now apply Ii|].
+        cbn. intros l Hl i Hi'. eapply plan_adds_level; eauto.
+    - (* start *)
+      destruct (st_mode s) eqn:M; try discriminate.
+      destruct (n_started (st_items s) <? conc)%nat; [|discriminate].
+      destruct (start_first (st_items s)) as [its|] eqn:SF; [|discriminate]. inversion H; subst s'; clear H.
+      apply start_first_inv in SF. destruct SF as [l1 [it [l2 [E [Sf [E' _]]]]]].
+      destruct I as [Ih Il Is Ir Ii]. constructor; cbn; auto.
+      intros x Hx. rewrite E' in Hx. apply in_app_or in Hx. destruct Hx as [Hx|[<-|Hx]].
+      + apply Ii. rewrite E. apply in_or_app. now left.
+      + cbn. apply Ii. rewrite E. apply in_or_app. right. now left.
+      + apply Ii. rewrite E. apply in_or_app. right. now right.
+    - (* act *)
+      destruct (st_mode s) eqn:M; try discriminate.
+      destruct (act_items n (st_items s)) as [[[it a] its]|] eqn:A; [|discriminate]. inversion H; subst s'; clear H.
+      apply act_items_inv in A. destruct A as [l1 [l2 [more [E [Sf [T [E' _]]]]]]].
+      destruct I as [Ih Il Is Ir Ii].
+      assert (Hit : In it (st_items s)) by (rewrite E; apply in_or_app; right; now left).
+      assert (Hits : forall x, In x its -> forall l, In (AAddMany l) (it_todo x) -> forall i, In i l -> ri_level i <> 0).
+      { intros x Hx. rewrite E' in Hx. apply in_app_or in Hx. destruct Hx as [Hx|Hx]; [|apply in_app_or in Hx; destruct Hx as [Hx|Hx]].
+        - apply Ii. rewrite E. apply in_or_app. now left.
+        - destruct more as [|b more']; [destruct Hx|]. destruct Hx as [<-|[]]. cbn. intros l Hl. apply (Ii it Hit).
+          rewrite T. now right.
+        - apply Ii. rewrite E. apply in_or_app. right. now right. }
+      destruct a as [q ini|c|k|st]; cbn [apply_tbl apply_hosts].
+      + constructor; cbn; auto.
+      + constructor; cbn; rewrite ?infos_upd by auto with eng; auto.
+        right. apply (proj1 (Ir M)).
+      + assert (Lk : forall i, In i k -> ri_level i <> 0) by (apply (Ii it Hit); rewrite T; now left).
+        assert (Hnew : forall i, In i (infos (add_many k (st_tbl s))) -> In i (infos (st_tbl s)) \/ (In i k /\ ri_level i <> 0)).
+        { intros i Hi. rewrite infos_add_many in Hi. apply in_app_or in Hi. destruct Hi as [Hi|Hi]; [now left|right].
+          apply added_incl in Hi. auto. }
+        constructor; cbn.
+        * intros h. rewrite hosts_after_kids by assumption. rewrite Ih. split; intros [i [Hi [L0 Eh]]].
+          -- exists i. split; [|auto]. rewrite infos_add_many. apply in_or_app. now left.
+          -- exists i. split; [|auto]. destruct (Hnew i Hi) as [?|[_ C]]; [assumption | contradiction].
+        * intros i Hi L0. destruct (Hnew i Hi) as [Hold|[_ C]]; [now apply Il | contradiction].
+        * destruct (Ir M) as [Ir1 _]. right. intros u Hu. rewrite infos_add_many. apply in_or_app. left. now apply Ir1.
+        * intros _. destruct (Ir M) as [Ir1 Ir2]. split; [|assumption].
+          intros u Hu. rewrite infos_add_many. apply in_or_app. left. now apply Ir1.
+        * exact Hits.
+      + constructor; cbn; rewrite ?infos_upd by auto with eng; auto.
+        right. apply (proj1 (Ir M)).
+    - (* crash *)
+      inversion H; subst s'; clear H. destruct I as [Ih Il Is Ir Ii]. constructor; cbn; auto; try discriminate.
+      all: try (intros it []).
+    - (* release *)
+      destruct (st_mode s) eqn:M; try discriminate. inversion H; subst s'; clear H.
+      destruct I as [Ih Il Is Ir Ii]. constructor; cbn; rewrite ?infos_release; auto; try discriminate.
+      all: try (intros it []).
+      destruct Is as [[E0 E1]|Is]; [|now right]. left. rewrite E0. auto.
+    - (* add start URLs *)
+      destruct (st_mode s) eqn:M; try discriminate. inversion H; subst s'; clear H.
+      destruct I as [Ih Il Is Ir Ii].
+      set (l := map start_info starts).
+      assert (Hl : forall i, In i l -> i = start_info (ri_url i) /\ In (ri_url i) starts).
+      { intros i Hi. apply in_map_iff in Hi. destruct Hi as [u [<- Hu]]. auto. }
+      assert (Hcov : forall u, In u starts -> In (start_info u) (infos (add_many l (st_tbl s)))).
+      { intros u Hu. rewrite infos_add_many. destruct Is as [[E0 _]|Is].
+        - assert (Hi : In (start_info u) l) by (now apply in_map).
+          destruct (added_cover l (st_tbl s) _ Hi) as [C|[i' [Hi' Eu]]].
+          + rewrite E0 in C. destruct C.
+          + apply in_or_app. right. destruct (Hl i' (added_incl _ _ _ Hi')) as [Ei' _].
+            cbn in Eu. rewrite Eu in Ei'. now rewrite <- Ei'.
+        - apply in_or_app. left. now apply Is. }
+      assert (Hlv : forall i, In i (infos (add_many l (st_tbl s))) -> ri_level i = 0 -> i = start_info (ri_url i) /\ In (ri_url i) starts).
+      { intros i Hi L0. rewrite infos_add_many in Hi. apply in_app_or in Hi. destruct Hi as [Hi|Hi]; [now apply Il|].
+        apply Hl. now apply (added_incl l (st_tbl s)). }
+      assert (Hh : forall h, In h (hosts_after host l (st_tbl s) (st_hosts s)) <->
+                     exists i, In i (infos (add_many l (st_tbl s))) /\ ri_level i = 0 /\ host (ri_url i) = h).
+      { intros h. rewrite In_hosts_after, Ih. rewrite infos_add_many. split.
+        - intros [[i [Hi R]]|[i [Hi R]]]; exists i; (split; [apply in_or_app; auto | exact R]).
+        - intros [i [Hi R]]. apply in_app_or in Hi. destruct Hi as [Hi|Hi]; [left|right]; eauto. }
+      constructor; cbn; auto.
+      intros _. split; [exact Hcov|]. intros h. rewrite Hh. unfold sp0. split.
+      + intros [i [Hi [L0 <-]]]. apply in_map. now apply Hlv.
+      + intros Hs. apply in_map_iff in Hs. destruct Hs as [u [<- Hu]]. exists (start_info u). auto.
+  Qed.
+
+  Lemma reach_InvH s : reach s -> InvH s.
+  Proof. induction 1; [apply InvH_init | eapply InvH_step; eauto]. Qed.
+
+  (* ---------------------------------------------------------------- *)
+  (* 5. the main invariant: all interleavings, all crash points        *)
+  (* ---------------------------------------------------------------- *)
+  (* the verdict depends on the span-hosts list only through membership *)
+  Hypothesis scope_ext : forall sp sp', (forall h, In h sp <-> In h sp') ->
+    forall b u i n, in_scope sp b u i n = in_scope sp' b u i n.
+
+  Notation plan := (Engine.plan site (in_scope sp0) maxredir).
+  Notation kids := (Engine.kids site (in_scope sp0) maxredir).
+
+  (* whatever was loaded at start-up, the running process plans like a fresh crawl *)
+  Lemma plan_span s p t : InvH s -> st_mode s = Running ->
+    Engine.plan site (in_scope (st_span s)) maxredir p t = plan p t.
+  Proof. intros I M. apply plan_ext. apply scope_ext. apply (ih_running s I M). Qed.
 
   (* what an in-flight item knows / owes *)
-  Definition item_ok (t : table) (it : item) : Prop :=
+  Definition item_ok (t : table) (lg : list logent) (it : item) : Prop :=
     (exists r, In r t /\ r_info r = it_info it /\ r_status r = InProgress /\ r_tries r = it_tries it) /\
     (exists did a more st, plan (it_info it) (it_tries it) = did ++ it_todo it /\ it_todo it = a :: more /\
                   it_todo it = removelast (it_todo it) ++ [ACheckIn st] /\ checked_in st /\
                   forallb (fun a => negb (is_checkin a)) (removelast (it_todo it)) = true /\
-                  forall ci, In ci (adds_of did) -> In (ri_url ci) (urls t)).
+                  (forall ci, In ci (adds_of did) -> In (ri_url ci) (urls t)) /\
+                  (forall q ini, In (ARequest q ini) did -> In (it_url it, q, ini) lg)).
 
   Record Inv (s : state) : Prop := {
     inv_nodup : NoDup (urls (st_tbl s));
@@ -419,11 +583,19 @@ Section Inv.
     inv_starting : st_mode s = Starting -> forall r, In r (st_tbl s) -> r_status r <> InProgress;
     inv_owner : st_mode s = Running -> forall r, In r (st_tbl s) -> r_status r = InProgress ->
                 exists it, In it (st_items s) /\ it_info it = r_info r;
-    inv_items : forall it, In it (st_items s) -> item_ok (st_tbl s) it;
+    inv_items : forall it, In it (st_items s) -> item_ok (st_tbl s) (st_log s) it;
     inv_items_nodup : NoDup (map it_url (st_items s));
-    (* parent checked in  =>  every child its visit admitted is in the table (C03) *)
+    (* parent checked in  =>  every child its visit admitted is in the table (C03),
+       and every request of its visit is in the log *)
     inv_nothing_lost : forall r, In r (st_tbl s) -> checked_in (r_status r) ->
-                exists t, r_tries r = t + 1 /\ forall ci, In ci (kids (r_info r) t) -> In (ri_url ci) (urls (st_tbl s))
+                exists t, r_tries r = t + 1 /\
+                  (forall ci, In ci (kids (r_info r) t) -> In (ri_url ci) (urls (st_tbl s))) /\
+                  (forall q ini, In (ARequest q ini) (plan (r_info r) t) -> In (r_url r, q, ini) (st_log s));
+    (* every request ever made is a request of the visit plan of a table row *)
+    inv_log_sound : forall u q ini, In (u, q, ini) (st_log s) ->
+                exists i t, In i (infos (st_tbl s)) /\ ri_url i = u /\ In (ARequest q ini) (plan i t);
+    inv_colog : forall r, In r (st_tbl s) -> r_status r <> Todo -> In (r_url r) (st_colog s);
+    inv_colog_tbl : forall u, In u (st_colog s) -> In u (urls (st_tbl s))
   }.
 
   Lemma adds_of_app a b : adds_of (a ++ b) = adds_of a ++ adds_of b.
@@ -439,7 +611,7 @@ Section Inv.
     exists a more st, plan p tries = a :: more /\ plan p tries = removelast (plan p tries) ++ [ACheckIn st] /\
       checked_in st /\ forallb (fun a => negb (is_checkin a)) (removelast (plan p tries)) = true.
   Proof.
-    destruct (plan_shape site in_scope maxredir p tries) as [pre [st [E [H C]]]].
+    destruct (plan_shape site (in_scope sp0) maxredir p tries) as [pre [st [E [H C]]]].
     rewrite E. rewrite removelast_snoc.
     destruct pre as [|a pre']; cbn [app]; eauto 8.
   Qed.
@@ -474,19 +646,17 @@ Section Inv.
     - apply N.eqb_neq in E. right. split; assumption.
   Qed.
 
-  Lemma item_ok_transfer t t' it :
-    item_ok t it ->
+  Lemma item_ok_transfer t lg t' lg' it :
+    item_ok t lg it ->
     (forall r, In r t -> r_info r = it_info it -> In r t') ->
     (forall u, In u (urls t) -> In u (urls t')) ->
-    item_ok t' it.
+    (forall e, In e lg -> In e lg') ->
+    item_ok t' lg' it.
   Proof.
-    intros [[r [Hr [Ei [Es Et]]]] [did [a [more [st [P [T [L [C [F A]]]]]]]]]] Hrow Hurls. split.
+    intros [[r [Hr [Ei [Es Et]]]] [did [a [more [st [P [T [L [C [F [A Rq]]]]]]]]]]] Hrow Hurls Hlg. split.
     - exists r. auto.
     - exists did, a, more, st. repeat split; auto.
   Qed.
-
-  Lemma item_ok_started t it : item_ok t it -> item_ok t (set_started it).
-  Proof. intros H. exact H. Qed.
 
   Lemma Inv_init : Inv init.
   Proof.
@@ -502,12 +672,51 @@ Section Inv.
     apply (nodup_url_eq (st_tbl s)); auto using inv_nodup. unfold r_url. rewrite Ei. exact E.
   Qed.
 
-  Lemma Inv_step s s' : Inv s -> step s s' -> Inv s'.
+  (* the fixed columns of the rows only ever grow *)
+  Lemma step_infos_incl s s' : step s s' -> forall i, In i (infos (st_tbl s)) -> In i (infos (st_tbl s')).
   Proof.
-    intros I [l H]. destruct l; cbn [fire] in H.
+    intros [l H] i Hi. destruct l; cbn [Engine.fire] in H.
+    - destruct (st_mode s); try discriminate. destruct (pick (st_tbl s)); [|discriminate]. inversion H; subst s'; cbn.
+      now rewrite infos_upd by auto with eng.
+    - destruct (st_mode s); try discriminate. destruct (n_started (st_items s) <? conc)%nat; [|discriminate].
+      destruct (start_first (st_items s)); [|discriminate]. inversion H; subst s'; cbn. assumption.
+    - destruct (st_mode s); try discriminate. destruct (act_items n (st_items s)) as [[[it a] its]|]; [|discriminate].
+      inversion H; subst s'; cbn. destruct a; cbn; rewrite ?infos_upd by auto with eng; try assumption.
+      rewrite infos_add_many. apply in_or_app. now left.
+    - inversion H; subst s'; cbn. assumption.
+    - destruct (st_mode s); try discriminate. inversion H; subst s'; cbn. now rewrite infos_release.
+    - destruct (st_mode s); try discriminate. inversion H; subst s'; cbn. rewrite infos_add_many. apply in_or_app. now left.
+  Qed.
+
+  Lemma step_log_incl s s' : step s s' -> forall e, In e (st_log s) -> In e (st_log s').
+  Proof.
+    intros [l H] e He. destruct l; cbn [Engine.fire] in H.
+    - destruct (st_mode s); try discriminate. destruct (pick (st_tbl s)); [|discriminate]. inversion H; subst s'; cbn. assumption.
+    - destruct (st_mode s); try discriminate. destruct (n_started (st_items s) <? conc)%nat; [|discriminate].
+      destruct (start_first (st_items s)); [|discriminate]. inversion H; subst s'; cbn. assumption.
+    - destruct (st_mode s); try discriminate. destruct (act_items n (st_items s)) as [[[it a] its]|]; [|discriminate].
+      inversion H; subst s'; cbn. destruct a; cbn; try assumption. now right.
+    - inversion H; subst s'; cbn. assumption.
+    - destruct (st_mode s); try discriminate. inversion H; subst s'; cbn. assumption.
+    - destruct (st_mode s); try discriminate. inversion H; subst s'; cbn. assumption.
+  Qed.
+
+  (* log soundness is carried along by every step *)
+  Lemma log_sound_keep s s' : step s s' ->
+    (forall u q ini, In (u, q, ini) (st_log s) -> exists i t, In i (infos (st_tbl s)) /\ ri_url i = u /\ In (ARequest q ini) (plan i t)) ->
+    forall u q ini, In (u, q, ini) (st_log s) -> exists i t, In i (infos (st_tbl s')) /\ ri_url i = u /\ In (ARequest q ini) (plan i t).
+  Proof.
+    intros St L u q ini H. destruct (L u q ini H) as [i [t [Hi R]]]. exists i, t. split; [|exact R].
+    now apply (step_infos_incl s s').
+  Qed.
+
+  Lemma Inv_step s s' : InvH s -> Inv s -> step s s' -> Inv s'.
+  Proof.
+    intros IH I St. pose proof St as St0. destruct St as [l H]. destruct l; cbn [Engine.fire] in H.
     - (* checkout *)
       destruct (st_mode s) eqn:M; try discriminate.
       destruct (pick (st_tbl s)) as [r|] eqn:P; [|discriminate]. inversion H; subst s'; clear H.
+      rewrite (plan_span s (r_info r) (r_tries r) IH M).
       apply pick_some in P. destruct P as [Hr St].
       assert (Hfree : forall it, In it (st_items s) -> it_url it <> r_url r).
       { intros it Hi E. destruct (item_row_unique s it r I Hi Hr (eq_sym E)) as [_ [C _]]. destruct St; congruence. }
@@ -520,20 +729,24 @@ Section Inv.
         * eexists. split; [apply in_or_app; right; left; reflexivity|]. reflexivity.
         * destruct (inv_owner s I M r' Hr' S') as [it [Hi E]]. exists it. split; [apply in_or_app; now left | assumption].
       + intros it Hi. apply in_app_or in Hi. destruct Hi as [Hi | [<- | []]].
-        * apply (item_ok_transfer (st_tbl s)); [now apply inv_items | | ].
+        * apply (item_ok_transfer (st_tbl s) (st_log s)); [now apply inv_items | | | auto].
           -- intros r0 H0 E0. apply upd_other; [assumption|]. intros C. apply (Hfree it Hi). unfold it_url. rewrite <- E0. exact C.
           -- intros u. now rewrite urls_upd by auto with eng.
         * split.
           -- exists (set_status InProgress r). repeat split. now apply upd_self.
           -- cbn. destruct (plan_item_ok (r_info r) (r_tries r)) as [a [more [st [E1 [E2 [C F]]]]]].
-             exists [], a, more, st. cbn. repeat split; auto. intros ci [].
+             exists [], a, more, st. cbn. repeat split; auto; intros; contradiction.
       + rewrite map_app. cbn. apply NoDup_snoc; [apply inv_items_nodup; assumption|].
         intros C. apply in_map_iff in C. destruct C as [it [E Hi]]. now apply (Hfree it Hi).
       + intros r' Hr' C. apply (upd_cases _ r) in Hr'; auto using inv_nodup.
         destruct Hr' as [-> | [Hr' N]].
         * exfalso. destruct C as [C|[C|C]]; discriminate.
-        * destruct (inv_nothing_lost s I r' Hr' C) as [t [Et Hk]]. exists t. split; [assumption|].
+        * destruct (inv_nothing_lost s I r' Hr' C) as [t [Et [Hk Hq]]]. exists t. split; [assumption|]. split; [|assumption].
           intros ci Hci. rewrite urls_upd by auto with eng. now apply Hk.
+      + apply (log_sound_keep s _ St0). apply inv_log_sound; assumption.
+      + intros r' Hr' S'. apply (upd_cases _ r) in Hr'; auto using inv_nodup.
+        destruct Hr' as [-> | [Hr' N]]; [now left | right; now apply inv_colog].
+      + intros u [<-|Hu]; rewrite urls_upd by auto with eng; [now apply in_map | now apply inv_colog_tbl].
     - (* start *)
       destruct (st_mode s) eqn:M; try discriminate.
       destruct (n_started (st_items s) <? conc)%nat; [|discriminate].
@@ -554,17 +767,20 @@ Section Inv.
         * exists (set_started it). split; [apply in_or_app; right; now left | assumption].
         * exists y. split; [apply in_or_app; right; now right | assumption].
       + intros x Hx. destruct (Hin x Hx) as [y [Hy [E1 [E2 E3]]]]. pose proof (inv_items s I y Hy) as Ok.
-        unfold item_ok in *. rewrite E1, E2, E3. exact Ok.
+        unfold item_ok, it_url in *. rewrite E1, E2, E3. exact Ok.
       + replace (map it_url its) with (map it_url (st_items s)); [apply inv_items_nodup; assumption|].
         rewrite E, E'. rewrite !map_app. reflexivity.
       + apply inv_nothing_lost; assumption.
+      + apply inv_log_sound; assumption.
+      + apply inv_colog; assumption.
+      + apply inv_colog_tbl; assumption.
     - (* act *)
       destruct (st_mode s) eqn:M; try discriminate.
       destruct (act_items n (st_items s)) as [[[it a] its]|] eqn:A; [|discriminate]. inversion H; subst s'; clear H.
       apply act_items_inv in A. destruct A as [l1 [l2 [more [E [Sf [T [E' _]]]]]]].
       assert (Hit : In it (st_items s)) by (rewrite E; apply in_or_app; right; now left).
       pose proof (inv_items s I it Hit) as Ok.
-      destruct Ok as [[r0 [H0 [Ei [Es Et]]]] [did [a0 [more0 [st [P [T0 [L [C [F Ad]]]]]]]]]].
+      destruct Ok as [[r0 [H0 [Ei [Es Et]]]] [did [a0 [more0 [st [P [T0 [L [C [F [Ad Rq]]]]]]]]]]].
       rewrite T in T0. inversion T0; subst a0 more0; clear T0.
       assert (U0 : r_url r0 = it_url it) by (unfold r_url, it_url; now rewrite Ei).
       pose proof (inv_items_nodup s I) as NDi. rewrite E, map_app in NDi. cbn in NDi.
@@ -573,6 +789,10 @@ Section Inv.
         - rewrite E. apply in_or_app. destruct Hx; [now left | right; now right].
         - intros Ex. apply NoDup_remove_2 in NDi. apply NDi. rewrite <- Ex. apply in_or_app.
           destruct Hx; [left | right]; now apply in_map. }
+      assert (Hlog : forall e, In e (st_log s) -> In e (apply_log (it_url it) a (st_log s))).
+      { intros e He. destruct a; cbn; auto. }
+      assert (Hc0 : In (it_url it) (st_colog s)).
+      { rewrite <- U0. apply (inv_colog s I r0 H0). congruence. }
       rewrite T in L, F.
       destruct (todo_tail a more st L F) as [[-> ->] | [Na [Nm [Lm Fm]]]].
       + (* check-in: the item is finished *)
@@ -588,17 +808,24 @@ Section Inv.
              rewrite E in Hy. rewrite E'. apply in_app_or in Hy. apply in_or_app.
              destruct Hy as [Hy|[<-|Hy]]; auto. exfalso. apply N. unfold r_url. rewrite <- Ey. reflexivity.
         * intros x Hx. rewrite E' in Hx. apply in_app_or in Hx. destruct (Hother x Hx) as [Hxs Nx].
-          apply (item_ok_transfer (st_tbl s)); [now apply inv_items | | ].
+          apply (item_ok_transfer (st_tbl s) (st_log s)); [now apply inv_items | | | auto].
           -- intros r1 H1 E1. apply upd_other; [assumption|]. intros Cx. apply Nx. unfold it_url. rewrite <- E1. exact Cx.
           -- intros u. now rewrite urls_upd by auto with eng.
         * rewrite E', map_app. now apply NoDup_remove_1 in NDi.
         * intros r' Hr' C'. apply (upd_cases _ r0) in Hr'; auto using inv_nodup.
           destruct Hr' as [-> | [Hr' N]].
-          -- exists (it_tries it). split; [cbn; now rewrite Et|]. intros ci Hci. rewrite urls_upd by auto with eng.
-             apply Ad. cbn [r_info checkin] in Hci. rewrite Ei in Hci. unfold kids in Hci. rewrite P, T, adds_of_app in Hci.
-             cbn in Hci. now rewrite app_nil_r in Hci.
-          -- destruct (inv_nothing_lost s I r' Hr' C') as [t [Et' Hk]]. exists t. split; [assumption|].
+          -- exists (it_tries it). split; [cbn; now rewrite Et|]. cbn [r_info checkin]. rewrite Ei. split.
+             ++ intros ci Hci. rewrite urls_upd by auto with eng.
+                apply Ad. unfold Engine.kids in Hci. rewrite P, T, adds_of_app in Hci.
+                cbn in Hci. now rewrite app_nil_r in Hci.
+             ++ intros q ini Hq. change (r_url (checkin st r0)) with (r_url r0). rewrite U0. apply Rq.
+                rewrite P, T in Hq. apply in_app_or in Hq. destruct Hq as [Hq|[Hq|[]]]; [assumption | discriminate].
+          -- destruct (inv_nothing_lost s I r' Hr' C') as [t [Et' [Hk Hq]]]. exists t. split; [assumption|]. split; [|assumption].
              intros ci Hci. rewrite urls_upd by auto with eng. now apply Hk.
+        * apply (log_sound_keep s _ St0). apply inv_log_sound; assumption.
+        * intros r' Hr' S'. apply (upd_cases _ r0) in Hr'; auto using inv_nodup.
+          destruct Hr' as [-> | [Hr' N]]; [change (r_url (checkin st r0)) with (r_url r0); now rewrite U0 | now apply inv_colog].
+        * intros u Hu. rewrite urls_upd by auto with eng. now apply inv_colog_tbl.
       + (* any other action: the item stays *)
         assert (E'' : its = l1 ++ set_todo more it :: l2) by (rewrite E'; destruct more; [congruence|reflexivity]).
         clear E'.
@@ -643,20 +870,40 @@ Section Inv.
                 ** rewrite <- app_assoc. cbn. now rewrite <- T.
                 ** intros ci Hci. rewrite adds_of_app in Hci. apply in_app_or in Hci. destruct Hci as [Hci|Hci]; [now apply Hurls, Ad|].
                    destruct a; cbn in Hci; try contradiction. rewrite app_nil_r in Hci. cbn. now apply add_many_covers.
+                ** intros q ini Hq. change (it_url (set_todo (b :: more') it)) with (it_url it).
+                   apply in_app_or in Hq. destruct Hq as [Hq|[Hq|[]]]; [now apply Hlog, Rq|].
+                   subst a. cbn. now left.
           -- destruct (Hother x Hx) as [Hxs Nx].
-             apply (item_ok_transfer (st_tbl s)); [now apply inv_items | | exact Hurls].
+             apply (item_ok_transfer (st_tbl s) (st_log s)); [now apply inv_items | | exact Hurls | exact Hlog].
              intros r1 H1 E1. apply Hrows; [assumption|]. intros Cx. apply Nx. unfold it_url. rewrite <- E1. exact Cx.
         * rewrite E'', map_app. cbn. exact NDi.
         * intros r' Hr' C'. destruct (Hback r' Hr') as [[Hold N] | [St | [_ [St _]]]].
-          -- destruct (inv_nothing_lost s I r' Hold C') as [t [Et' Hk]]. exists t. split; [assumption|].
-             intros ci Hci. apply Hurls. now apply Hk.
+          -- destruct (inv_nothing_lost s I r' Hold C') as [t [Et' [Hk Hq]]]. exists t. split; [assumption|]. split.
+             ++ intros ci Hci. apply Hurls. now apply Hk.
+             ++ intros q ini Hq'. apply Hlog. now apply Hq.
           -- exfalso. destruct C' as [C'|[C'|C']]; congruence.
           -- exfalso. destruct C' as [C'|[C'|C']]; congruence.
+        * intros u q ini Hl.
+          assert (Hl' : (u, q, ini) = (it_url it, q, ini) /\ a = ARequest q ini \/ In (u, q, ini) (st_log s)).
+          { destruct a; cbn in Hl; auto. destruct Hl as [Hl|Hl]; [|now right]. inversion Hl; subst. now left. }
+          destruct Hl' as [[Eq Ea]|Hold].
+          -- inversion Eq; subst u. exists (it_info it), (it_tries it). split; [|split; [reflexivity|]].
+             ++ apply (step_infos_incl s _ St0). rewrite <- Ei. unfold infos. now apply in_map.
+             ++ rewrite P, T, Ea. apply in_or_app. right. now left.
+          -- now apply (log_sound_keep s _ St0 (inv_log_sound s I)).
+        * intros r' Hr' S'. destruct (Hback r' Hr') as [[Hold N] | [St | [Ei' _]]].
+          -- now apply inv_colog.
+          -- congruence.
+          -- unfold r_url. rewrite Ei'. fold (r_url r0). now rewrite U0.
+        * intros u Hu. apply Hurls. now apply inv_colog_tbl.
     - (* crash *)
       inversion H; subst s'; clear H. constructor; cbn; try congruence; try discriminate; try apply NoDup_nil.
       + apply inv_nodup; assumption.
       + intros it [].
       + apply inv_nothing_lost; assumption.
+      + apply inv_log_sound; assumption.
+      + apply inv_colog; assumption.
+      + apply inv_colog_tbl; assumption.
     - (* release *)
       destruct (st_mode s) eqn:M; try discriminate. inversion H; subst s'; clear H.
       constructor; cbn; try congruence; try discriminate; try apply NoDup_nil.
@@ -668,8 +915,14 @@ Section Inv.
       + intros r' Hr' C'. apply In_release in Hr'. destruct Hr' as [r [Hr ->]].
         destruct (status_eqb (r_status r) InProgress) eqn:Sx.
         * exfalso. destruct C' as [C'|[C'|C']]; discriminate.
-        * destruct (inv_nothing_lost s I r Hr C') as [t [Et' Hk]]. exists t. split; [assumption|].
+        * destruct (inv_nothing_lost s I r Hr C') as [t [Et' [Hk Hq]]]. exists t. split; [assumption|]. split; [|assumption].
           intros ci Hci. rewrite urls_release. now apply Hk.
+      + apply (log_sound_keep s _ St0). apply inv_log_sound; assumption.
+      + intros r' Hr' S'. apply In_release in Hr'. destruct Hr' as [r [Hr ->]].
+        destruct (status_eqb (r_status r) InProgress) eqn:Sx.
+        * exfalso. now apply S'.
+        * now apply inv_colog.
+      + intros u Hu. rewrite urls_release. now apply inv_colog_tbl.
     - (* add start URLs *)
       destruct (st_mode s) eqn:M; try discriminate. inversion H; subst s'; clear H.
       constructor; cbn; try congruence; try discriminate; try apply NoDup_nil.
@@ -678,11 +931,17 @@ Section Inv.
         now apply (inv_starting s I M r' Hr').
       + intros it [].
       + intros r' Hr' C'. apply add_many_In in Hr'. destruct Hr' as [Hr' | [i [_ ->]]].
-        * destruct (inv_nothing_lost s I r' Hr' C') as [t [Et' Hk]]. exists t. split; [assumption|].
+        * destruct (inv_nothing_lost s I r' Hr' C') as [t [Et' [Hk Hq]]]. exists t. split; [assumption|]. split; [|assumption].
           intros ci Hci. apply add_many_incl. now apply Hk.
         * exfalso. destruct C' as [C'|[C'|C']]; discriminate.
+      + apply (log_sound_keep s _ St0). apply inv_log_sound; assumption.
+      + intros r' Hr' S'. apply add_many_In in Hr'. destruct Hr' as [Hr' | [i [_ ->]]]; [now apply inv_colog|].
+        exfalso. now apply S'.
+      + intros u Hu. apply add_many_incl. now apply inv_colog_tbl.
   Qed.
 
   Lemma reach_Inv s : reach s -> Inv s.
-  Proof. induction 1; [apply Inv_init | eapply Inv_step; eauto]. Qed.
+  Proof.
+    induction 1 as [|s s' R IH St]; [apply Inv_init|]. eapply Inv_step; eauto. now apply reach_InvH.
+  Qed.
 End Inv.
